@@ -66,7 +66,7 @@ Definition padding_of (days : list day) : Z :=
 (* the body of journal.Print after sorting: per day prices, opens, transactions, assertions,
    closes; PrintDirectiveLn adds a newline after each directive; a blank line follows each
    non-empty group except the transactions (whose own text ends with a newline) *)
-Definition print_day (padding : Z) (d : day) : str :=
+Definition print_day_pinned (padding : Z) (d : day) : str :=
   let ln (s : str) := s ++ [10] in
   concat (map (fun x => ln (print_price (d_date d) x)) (d_prices d)) ++
   (match d_prices d with [] => [] | _ => [10] end) ++
@@ -83,41 +83,41 @@ Definition print_day (padding : Z) (d : day) : str :=
 Definition sort_days (days : list day) : list day :=
   map (fun d => set_txns d (sort_by txn_ltb (d_txns d))) days.
 
-Definition print_journal (days : list day) : str :=
+Definition print_journal_pinned (days : list day) : str :=
   let days := sort_days days in
   let padding := padding_of days in
-  concat (map (print_day padding) days).
+  concat (map (print_day_pinned padding) days).
 
 (* ---------------------------------------------------------------- repaired printing (C09)
-   The pinned journal.Print (print_day above) writes the assertions of a day one after the
+   The pinned journal.Print (print_day_pinned above) writes the assertions of a day one after the
    other; a multi-balance assertion ends at a blank line only, so its successor is read as a
    further balance line (finding C09-multi-assertion, DESIGN F2).  The repaired code writes
    a blank line after an assertion whose number of balances is not 1 when another assertion
    of the same day follows (findings/C09-multi-assertion.patch). *)
-Fixpoint print_asserts_fixed (dt : Z) (l : list (list balance)) : str :=
+Fixpoint print_asserts (dt : Z) (l : list (list balance)) : str :=
   match l with
   | [] => []
   | a :: rest =>
     print_assertion dt a ++ [10] ++
     (match rest with
      | [] => []
-     | _ => (match a with [_] => [] | _ => [10] end) ++ print_asserts_fixed dt rest
+     | _ => (match a with [_] => [] | _ => [10] end) ++ print_asserts dt rest
      end)
   end.
 
-Definition print_day_fixed (padding : Z) (d : day) : str :=
+Definition print_day (padding : Z) (d : day) : str :=
   let ln (s : str) := s ++ [10] in
   concat (map (fun x => ln (print_price (d_date d) x)) (d_prices d)) ++
   (match d_prices d with [] => [] | _ => [10] end) ++
   concat (map (fun a => ln (print_open (d_date d) a)) (d_opens d)) ++
   (match d_opens d with [] => [] | _ => [10] end) ++
   concat (map (fun t => ln (print_txn padding t)) (d_txns d)) ++
-  print_asserts_fixed (d_date d) (d_asserts d) ++
+  print_asserts (d_date d) (d_asserts d) ++
   (match d_asserts d with [] => [] | _ => [10] end) ++
   concat (map (fun a => ln (print_close (d_date d) a)) (d_closes d)) ++
   (match d_closes d with [] => [] | _ => [10] end).
 
-Definition print_journal_fixed (days : list day) : str :=
+Definition print_journal (days : list day) : str :=
   let days := sort_days days in
   let padding := padding_of days in
-  concat (map (print_day_fixed padding) days).
+  concat (map (print_day padding) days).
